@@ -407,6 +407,12 @@ func registerHarnessIntrinsics() {
 			e.path.inputs = append(e.path.inputs, InputRec{Kind: "env", Tag: tag, N: k})
 			return e.tt.Const(64, uint64(k))
 		},
+		// fork-free combinators for oracles
+		"vIte64": func(e *Engine, c *frame, f *ssa.Function, a []Value) Value {
+			return e.tt.Ite(a[0].(*Term), a[1].(*Term), a[2].(*Term))
+		},
+		"vAnd": func(e *Engine, c *frame, f *ssa.Function, a []Value) Value { return e.tt.And(a[0].(*Term), a[1].(*Term)) },
+		"vOr":  func(e *Engine, c *frame, f *ssa.Function, a []Value) Value { return e.tt.Or(a[0].(*Term), a[1].(*Term)) },
 		"vBool": func(e *Engine, c *frame, f *ssa.Function, a []Value) Value {
 			t := e.symScalar("bool", strArg(e, a[0]), 0)
 			return t
